@@ -1,13 +1,18 @@
 (* C08 — ingress is content-addressed, idempotent and order-free.
    Only property theorems live here: each is closed by [exact], pinned by
-   [Check ... : statement] and followed by [Print Assumptions]. *)
+   [Check ... : statement] and followed by [Print Assumptions].
+   (generated layout: Theorem and Check statements are textually identical)
+
+   NOT covered by a theorem: the "after a restart" half of the property (restore_* rebuilds
+   committed_ingress from receipt correlations of the ticketed path; exercised by the harness
+   in mode=restart, WAL recovery is C10); engine rule execution; rollback paths (C09). *)
 From Coq Require Import List NArith Permutation.
 From Echo Require Import Base.FinMap Base.Bytes Model.Inbox Proofs.InboxProofs.
 Import ListNotations.
 Open Scope N_scope.
 
-(* The ingress id is a function of kind, bytes and the SET of cited causal parents:
-   it ignores the routing target and the order / multiplicity of the cited parents. *)
+(* The ingress id is a function of kind, bytes and the SET of cited causal parents: it ignores
+   the routing target and the order / multiplicity in which parents are cited. *)
 Theorem id_function_of_content : forall (H : bytes -> N) t1 t2 k b ps1 ps2,
   (forall p, In p ps1 <-> In p ps2) ->
   ingress_id H (mk_envelope t1 k b ps1) = ingress_id H (mk_envelope t2 k b ps2).
@@ -17,11 +22,46 @@ Check id_function_of_content : forall (H : bytes -> N) t1 t2 k b ps1 ps2,
   ingress_id H (mk_envelope t1 k b ps1) = ingress_id H (mk_envelope t2 k b ps2).
 Print Assumptions id_function_of_content.
 
-(* Arrival order and retry multiplicity do not matter: two submission sequences
-   with the same SET of envelopes (any order, any repetitions) leave the same
-   inbox (pending map and policy), starting from any inbox state, under any policy.
-   Hypothesis (necessary, see ingest_target_spelling_refuted): within the
-   collection an ingress id names a single envelope. *)
+(* Inside one domain (parentless / causal:v2) the hashed preimage is uniquely decodable:
+   equal preimages imply equal (kind, bytes, parents).  wf_content = field widths of the Rust types. *)
+Theorem id_preimage_inj_per_domain : forall k1 b1 ps1 k2 b2 ps2,
+  wf_content k1 b1 ps1 -> wf_content k2 b2 ps2 -> (ps1 = [] <-> ps2 = []) ->
+  id_preimage k1 b1 ps1 = id_preimage k2 b2 ps2 -> k1 = k2 /\ b1 = b2 /\ ps1 = ps2.
+Proof. exact id_preimage_inj. Qed.
+Check id_preimage_inj_per_domain : forall k1 b1 ps1 k2 b2 ps2,
+  wf_content k1 b1 ps1 -> wf_content k2 b2 ps2 -> (ps1 = [] <-> ps2 = []) ->
+  id_preimage k1 b1 ps1 = id_preimage k2 b2 ps2 -> k1 = k2 /\ b1 = b2 /\ ps1 = ps2.
+Print Assumptions id_preimage_inj_per_domain.
+
+(* Hence equal ids name equal content inside a domain, or exhibit a collision of the hash. *)
+Theorem ingress_id_binds_content : forall (H : bytes -> N) e1 e2,
+  wf_content (e_kind e1) (e_bytes e1) (e_parents e1) -> wf_content (e_kind e2) (e_bytes e2) (e_parents e2) ->
+  (e_parents e1 = [] <-> e_parents e2 = []) ->
+  ingress_id H e1 = ingress_id H e2 -> content e1 = content e2 \/ Collision H.
+Proof. exact ingress_id_binds. Qed.
+Check ingress_id_binds_content : forall (H : bytes -> N) e1 e2,
+  wf_content (e_kind e1) (e_bytes e1) (e_parents e1) -> wf_content (e_kind e2) (e_bytes e2) (e_parents e2) ->
+  (e_parents e1 = [] <-> e_parents e2 = []) ->
+  ingress_id H e1 = ingress_id H e2 -> content e1 = content e2 \/ Collision H.
+Print Assumptions ingress_id_binds_content.
+
+(* ... but NOT across domains (the full 'id is injective in content' is false of the code): a
+   parentless intent whose hand-made kind starts with the bytes "causal:v2\0" has the very same
+   preimage, hence ingress id, as a causal intent.  (make_intent_kind output never has that shape
+   except by a hash coincidence; IntentKind::from_hash is public.) *)
+Theorem id_cross_domain_alias_refuted : wf_content alias_kind alias_bytes [] /\ wf_content 0 [] [alias_parent] /\
+  id_preimage alias_kind alias_bytes [] = id_preimage 0 [] [alias_parent] /\
+  (alias_kind, alias_bytes, @nil parent) <> (0, @nil N, [alias_parent]).
+Proof. exact cross_domain_alias. Qed.
+Check id_cross_domain_alias_refuted : wf_content alias_kind alias_bytes [] /\ wf_content 0 [] [alias_parent] /\
+  id_preimage alias_kind alias_bytes [] = id_preimage 0 [] [alias_parent] /\
+  (alias_kind, alias_bytes, @nil parent) <> (0, @nil N, [alias_parent]).
+Print Assumptions id_cross_domain_alias_refuted.
+
+(* Arrival order and retry multiplicity do not matter: two submission sequences with the same SET
+   of envelopes (any order, any repetitions) leave the same inbox (pending map and policy), from
+   any inbox state, under any policy.  Hypothesis (necessary, see ingest_target_spelling_refuted):
+   within the collection an ingress id names a single envelope. *)
 Theorem ingest_order_free : forall (H : bytes -> N) ib l1 l2,
   sorted N.compare (ib_pending ib) -> id_determines_envelope H l1 ->
   (forall e, In e l1 <-> In e l2) ->
@@ -43,10 +83,9 @@ Check ingest_order_free_ids : forall (H : bytes -> N) ib l1 l2,
   map fst (ib_pending (ingest_all H ib l1)) = map fst (ib_pending (ingest_all H ib l2)).
 Print Assumptions ingest_order_free_ids.
 
-(* DESIGN §6 F11: the full statement WITHOUT the hypothesis is false of the code as
-   it is: the id does not cover the target and an occupied entry keeps the first
-   envelope, so two spellings of one content retain an order-dependent envelope
-   (same id set, different retained envelope). *)
+(* DESIGN 6 F11: ingest_order_free WITHOUT its hypothesis is false of the code as it is: the id does
+   not cover the target and an occupied entry keeps the first envelope, so two spellings of one
+   content retain an order-dependent envelope (same id set, different retained envelope). *)
 Theorem ingest_target_spelling_refuted : forall (H : bytes -> N),
   exists e1 e2 : envelope,
     content e1 = content e2 /\ ingress_id H e1 = ingress_id H e2 /\ e1 <> e2 /\
@@ -62,9 +101,23 @@ Check ingest_target_spelling_refuted : forall (H : bytes -> N),
     map fst (ib_pending (ingest_all H (inbox_new AcceptAll) [e2; e1])).
 Print Assumptions ingest_target_spelling_refuted.
 
-(* The admitted batch is canonical: a prefix of the id-ordered pending map of length
-   min(budget, |pending|) (all of it for AcceptAll / KindFilter), strictly ascending,
-   and every admitted id is below every id left pending. *)
+(* A retry while pending is reported Duplicate and leaves the inbox untouched. *)
+Theorem ingest_retry_duplicate : forall (H : bytes -> N) ib e e',
+  sorted N.compare (ib_pending ib) -> ingress_id H e' = ingress_id H e ->
+  policy_accepts (ib_policy ib) e = true -> policy_accepts (ib_policy ib) e' = true ->
+  ingest (fst (ingest ib (ingress_id H e) e)) (ingress_id H e') e' =
+  (fst (ingest ib (ingress_id H e) e), Duplicate).
+Proof. exact ingest_retry. Qed.
+Check ingest_retry_duplicate : forall (H : bytes -> N) ib e e',
+  sorted N.compare (ib_pending ib) -> ingress_id H e' = ingress_id H e ->
+  policy_accepts (ib_policy ib) e = true -> policy_accepts (ib_policy ib) e' = true ->
+  ingest (fst (ingest ib (ingress_id H e) e)) (ingress_id H e') e' =
+  (fst (ingest ib (ingress_id H e) e), Duplicate).
+Print Assumptions ingest_retry_duplicate.
+
+(* The admitted batch is canonical: the prefix of the id-ordered pending map of length
+   min(budget, |pending|) (all of it for AcceptAll / KindFilter), strictly ascending, every
+   admitted id below every id left pending. *)
 Theorem admit_canonical : forall ib ib' batch,
   sorted N.compare (ib_pending ib) -> inbox_admit ib = (ib', batch) ->
   ib_pending ib = batch ++ ib_pending ib' /\ ib_policy ib' = ib_policy ib /\
@@ -79,3 +132,161 @@ Check admit_canonical : forall ib ib' batch,
   sorted N.compare batch /\ sorted N.compare (ib_pending ib') /\
   (forall i e j e', In (i, e) batch -> In (j, e') (ib_pending ib') -> i < j).
 Print Assumptions admit_canonical.
+
+(* ... so batch order and content are independent of arrival order and retries. *)
+Theorem admit_arrival_order_free : forall (H : bytes -> N) ib l1 l2,
+  sorted N.compare (ib_pending ib) -> id_determines_envelope H l1 -> (forall e, In e l1 <-> In e l2) ->
+  inbox_admit (ingest_all H ib l1) = inbox_admit (ingest_all H ib l2).
+Proof. exact admit_arrival_independent. Qed.
+Check admit_arrival_order_free : forall (H : bytes -> N) ib l1 l2,
+  sorted N.compare (ib_pending ib) -> id_determines_envelope H l1 -> (forall e, In e l1 <-> In e l2) ->
+  inbox_admit (ingest_all H ib l1) = inbox_admit (ingest_all H ib l2).
+Print Assumptions admit_arrival_order_free.
+
+(* admit_partitioned (trusted-host path): the batch is a function of the pending map alone, never
+   mixes the two execution categories, is ascending, respects the budget, and batch + remaining is
+   exactly the old pending map. *)
+Theorem admit_partitioned_canonical : forall ib pk pl tick ib' batch,
+  sorted N.compare (ib_pending ib) -> admit_partitioned ib pk pl tick = (ib', batch) ->
+  (forall x, In x (ib_pending ib) <-> In x batch \/ In x (ib_pending ib')) /\
+  sorted N.compare batch /\ sorted N.compare (ib_pending ib') /\ ib_policy ib' = ib_policy ib /\
+  (exists sel, forall x, In x batch -> in_part pk x = sel) /\
+  (match ib_policy ib with Budgeted n => lenN batch <= n | _ => True end).
+Proof. exact admit_partitioned_spec. Qed.
+Check admit_partitioned_canonical : forall ib pk pl tick ib' batch,
+  sorted N.compare (ib_pending ib) -> admit_partitioned ib pk pl tick = (ib', batch) ->
+  (forall x, In x (ib_pending ib) <-> In x batch \/ In x (ib_pending ib')) /\
+  sorted N.compare batch /\ sorted N.compare (ib_pending ib') /\ ib_policy ib' = ib_policy ib /\
+  (exists sel, forall x, In x batch -> in_part pk x = sel) /\
+  (match ib_policy ib with Budgeted n => lenN batch <= n | _ => True end).
+Print Assumptions admit_partitioned_canonical.
+
+(* commit_with_state's dedupe of the admitted batch by ingress id never drops anything. *)
+Theorem commit_dedupe_noop : forall ib ib' batch,
+  sorted N.compare (ib_pending ib) -> inbox_admit ib = (ib', batch) -> commit_dedupe [] batch = batch.
+Proof. exact commit_dedupe_noop_l. Qed.
+Check commit_dedupe_noop : forall ib ib' batch,
+  sorted N.compare (ib_pending ib) -> inbox_admit ib = (ib', batch) -> commit_dedupe [] batch = batch.
+Print Assumptions commit_dedupe_noop.
+
+(* Every runtime built by register_writer_head from the empty one satisfies the invariant used below
+   (sorted maps, pending and committed disjoint). *)
+Theorem registered_runtime_wf : forall rt h p nm d, rt_wf rt -> rt_wf (fst (register_head rt h p nm d)).
+Proof. exact register_head_wf. Qed.
+Check registered_runtime_wf : forall rt h p nm d, rt_wf rt -> rt_wf (fst (register_head rt h p nm d)).
+Print Assumptions registered_runtime_wf.
+
+(* Submitting the same SET of intents in a window (any arrival order, any retries, any routing
+   spelling that keeps one envelope per id and head) yields the same runtime state, hence the same
+   admitted batches, commits and dispositions for every continuation ops (passes, further
+   submissions, policy and eligibility changes). *)
+Theorem pass_order_free : forall (H : bytes -> N) rt l1 l2 ops,
+  rt_wf rt -> id_determines_envelope_per_head H rt l1 -> (forall e, In e l1 <-> In e l2) ->
+  run H (submit_all H rt l1) ops = run H (submit_all H rt l2) ops.
+Proof. exact pass_order_free_l. Qed.
+Check pass_order_free : forall (H : bytes -> N) rt l1 l2 ops,
+  rt_wf rt -> id_determines_envelope_per_head H rt l1 -> (forall e, In e l1 <-> In e l2) ->
+  run H (submit_all H rt l1) ops = run H (submit_all H rt l2) ops.
+Print Assumptions pass_order_free.
+
+(* For EVERY op sequence (submissions, retries, passes, policy and eligibility changes in any
+   interleaving): no (head, ingress id) is committed twice, nothing already committed is committed
+   again, and committed_ingress is exactly what was committed. *)
+Theorem at_most_once : forall (H : bytes -> N) ops rt rt' outs,
+  rt_wf rt -> run H rt ops = (rt', outs) ->
+  NoDup (all_commits outs) /\
+  (forall y, In y (all_commits outs) -> ~ cmem y (rt_committed rt)) /\
+  (forall y, cmem y (rt_committed rt') <-> cmem y (rt_committed rt) \/ In y (all_commits outs)).
+Proof. exact at_most_once_l. Qed.
+Check at_most_once : forall (H : bytes -> N) ops rt rt' outs,
+  rt_wf rt -> run H rt ops = (rt', outs) ->
+  NoDup (all_commits outs) /\
+  (forall y, In y (all_commits outs) -> ~ cmem y (rt_committed rt)) /\
+  (forall y, cmem y (rt_committed rt') <-> cmem y (rt_committed rt) \/ In y (all_commits outs)).
+Print Assumptions at_most_once.
+
+(* A retry after the commit is a Duplicate and changes nothing. *)
+Theorem retry_after_commit_duplicate : forall (H : bytes -> N) ops rt rt' outs e h,
+  rt_wf rt -> run H rt ops = (rt', outs) ->
+  In (h, ingress_id H e) (all_commits outs) -> resolve rt' (e_target e) = RHead h ->
+  submit H rt' e = (rt', DDuplicate h (ingress_id H e)).
+Proof. exact retry_after_commit. Qed.
+Check retry_after_commit_duplicate : forall (H : bytes -> N) ops rt rt' outs e h,
+  rt_wf rt -> run H rt ops = (rt', outs) ->
+  In (h, ingress_id H e) (all_commits outs) -> resolve rt' (e_target e) = RHead h ->
+  submit H rt' e = (rt', DDuplicate h (ingress_id H e)).
+Print Assumptions retry_after_commit_duplicate.
+
+(* A retry while pending is a Duplicate and changes nothing. *)
+Theorem retry_while_pending_duplicate : forall (H : bytes -> N) rt e h s,
+  resolve rt (e_target e) = RHead h -> ~ cmem (h, ingress_id H e) (rt_committed rt) ->
+  find hkey_cmp h (rt_heads rt) = Some s -> policy_accepts (ib_policy (hs_inbox s)) e = true ->
+  mem N.compare (ingress_id H e) (ib_pending (hs_inbox s)) = true ->
+  submit H rt e = (rt, DDuplicate h (ingress_id H e)).
+Proof. exact submit_pending_duplicate. Qed.
+Check retry_while_pending_duplicate : forall (H : bytes -> N) rt e h s,
+  resolve rt (e_target e) = RHead h -> ~ cmem (h, ingress_id H e) (rt_committed rt) ->
+  find hkey_cmp h (rt_heads rt) = Some s -> policy_accepts (ib_policy (hs_inbox s)) e = true ->
+  mem N.compare (ingress_id H e) (ib_pending (hs_inbox s)) = true ->
+  submit H rt e = (rt, DDuplicate h (ingress_id H e)).
+Print Assumptions retry_while_pending_duplicate.
+
+(* Non-vacuity: a concrete runtime (two heads on one worldline, one budgeted, routed by default /
+   name / exact head), built by register_head, satisfies rt_wf; a concrete window of three
+   envelopes (two of them the same content for two different heads) satisfies
+   id_determines_envelope_per_head under a concrete hash; the run commits a non-trivial set; and
+   the conclusions hold on it for the reversed arrival order with retries. *)
+Definition ex_H (pre : bytes) : N := from_be pre.
+Definition ex_rt : runtime :=
+  fst (register_head (fst (register_head (rt_empty [1]) (1, 10) AcceptAll None true))
+         (1, 11) (Budgeted 1) (Some [111; 114]) false).
+Definition ex_e1 := mk_envelope (TDefault 1) 17 [1; 2] [].
+Definition ex_e2 := mk_envelope (TNamed 1 [111; 114]) 17 [1; 2] [].
+Definition ex_e3 := mk_envelope (TExact 1 11) 18 [3]
+  [(false, (1, (1, (1, (5, (6, (7, 8))))))); (false, (1, (1, (1, (5, (6, (7, 8)))))))].
+Definition ex_l := [ex_e1; ex_e2; ex_e3].
+
+Example c08_nonvacuous :
+  rt_wf ex_rt /\
+  id_determines_envelope_per_head ex_H ex_rt ex_l /\
+  ingress_id ex_H ex_e1 = ingress_id ex_H ex_e2 /\
+  length (all_commits (snd (run ex_H ex_rt (map Submit ex_l ++ [Pass; Submit ex_e1; Pass])))) = 3%nat /\
+  (forall ops, run ex_H (submit_all ex_H ex_rt ex_l) ops = run ex_H (submit_all ex_H ex_rt (rev ex_l ++ ex_l)) ops) /\
+  NoDup (all_commits (snd (run ex_H ex_rt (map Submit ex_l ++ [Pass; Submit ex_e1; Pass])))).
+Proof.
+  assert (Hwf : rt_wf ex_rt) by (unfold ex_rt; apply register_head_wf, register_head_wf, rt_empty_wf).
+  assert (Hd : id_determines_envelope_per_head ex_H ex_rt ex_l).
+  { intros a b Ha Hb E R. unfold ex_l in Ha, Hb. cbn [In] in Ha, Hb.
+    destruct Ha as [<-|[<-|[<-|[]]]]; destruct Hb as [<-|[<-|[<-|[]]]]; try reflexivity;
+      try (vm_compute in E; discriminate E); vm_compute in R; discriminate R. }
+  split; [exact Hwf|]. split; [exact Hd|]. split; [reflexivity|]. split; [vm_compute; reflexivity|].
+  split.
+  - intros ops. apply pass_order_free; [exact Hwf|exact Hd|].
+    intros e. unfold ex_l. cbn [rev app In]. tauto.
+  - destruct (run ex_H ex_rt (map Submit ex_l ++ [Pass; Submit ex_e1; Pass])) as [rt' outs] eqn:R.
+    apply (at_most_once ex_H _ ex_rt rt' outs Hwf R).
+Qed.
+
+(* ... and for the inbox-level theorems: a causal intent citing one parent twice is canonicalised,
+   is well-formed content, the two-envelope collection satisfies id_determines_envelope, and a
+   budget-1 inbox admits exactly one of them whatever the arrival order. *)
+Example c08_nonvacuous_inbox :
+  let l := [ex_e3; ex_e1] in
+  id_determines_envelope ex_H l /\
+  wf_content (e_kind ex_e3) (e_bytes ex_e3) (e_parents ex_e3) /\
+  e_parents ex_e3 = [(false, (1, (1, (1, (5, (6, (7, 8)))))))] /\
+  lenN (snd (inbox_admit (ingest_all ex_H (inbox_new (Budgeted 1)) l))) = 1 /\
+  lenN (ib_pending (fst (inbox_admit (ingest_all ex_H (inbox_new (Budgeted 1)) l)))) = 1 /\
+  inbox_admit (ingest_all ex_H (inbox_new (Budgeted 1)) l) =
+  inbox_admit (ingest_all ex_H (inbox_new (Budgeted 1)) (rev l ++ l)).
+Proof.
+  cbv zeta.
+  assert (Hd : id_determines_envelope ex_H [ex_e3; ex_e1]).
+  { intros a b Ha Hb E. cbn [In] in Ha, Hb.
+    destruct Ha as [<-|[<-|[]]]; destruct Hb as [<-|[<-|[]]]; try reflexivity; vm_compute in E; discriminate E. }
+  split; [exact Hd|]. split.
+  { unfold wf_content. split; [vm_compute; reflexivity|]. split; [vm_compute; reflexivity|].
+    split; [vm_compute; reflexivity|]. constructor; [|constructor]. cbn. repeat split; vm_compute; reflexivity. }
+  split; [vm_compute; reflexivity|]. split; [vm_compute; reflexivity|]. split; [vm_compute; reflexivity|].
+  apply admit_arrival_order_free; [exact I|exact Hd|]. intros e. cbn [rev app In]. tauto.
+Qed.
